@@ -738,3 +738,61 @@ pub fn agree_ob(a: &[u128]) -> Vec<u128> {
     }
     o
 }
+
+/// bao: args [kind, seed, size, a, b] -> bao 0.12 slice for bytes [a*1024, b*1024) (length prefix included):
+///   [len, dg, decoded_ok, crate_equal]  (decoded_ok: bao's SliceDecoder returns the selected bytes;
+///   crate_equal: le64(size) ++ encode_ranges_validated(bs 0) is byte-identical to bao's slice)
+pub fn bao_case(a: &[u128]) -> Vec<u128> {
+    use std::io::Read;
+    let data = gen_data(a[0] as u64, a[1] as u64, a[2] as usize);
+    let (ca, cb) = (a[3] as u64, a[4] as u64);
+    let (start, len) = (ca * 1024, (cb - ca) * 1024);
+    let (enc, hash) = bao::encode::encode(&data);
+    let mut ex = bao::encode::SliceExtractor::new(Cursor::new(&enc), start, len);
+    let mut slice = Vec::new();
+    ex.read_to_end(&mut slice).unwrap();
+    let mut dec = bao::decode::SliceDecoder::new(&slice[..], &hash, start, len);
+    let mut got = Vec::new();
+    let ok = dec.read_to_end(&mut got).is_ok();
+    let lo = std::cmp::min(start as usize, data.len());
+    let hi = std::cmp::min((start + len) as usize, data.len());
+    let decoded_ok = ok && got[..] == data[lo..hi];
+    // the crate at block size 0
+    let ob = PreOrderMemOutboard::create(&data, BlockSize::ZERO);
+    let ranges = mk_ranges(&[ca, cb]);
+    let mut out = (data.len() as u64).to_le_bytes().to_vec();
+    sync::encode_ranges_validated(&data[..], &ob, &ranges, &mut out).unwrap();
+    vec![slice.len() as u128, digest(&slice) as u128, b(decoded_ok), b(out == slice)]
+}
+
+/// copy: args [kind, seed, size, bs, from_kind, to_kind, driver] -> [rc, to_data_dg, to_loads_dg, from_loads_dg, flipflip_equal]
+pub fn copy_case(a: &[u128]) -> Vec<u128> {
+    let data = gen_data(a[0] as u64, a[1] as u64, a[2] as usize);
+    let bs = a[3] as u8;
+    let from = Ob::intact(a[4], &data, bs);
+    let t = from.tree();
+    let mut to = Ob::new(a[5], from.root(), t, vec![0u8; t.outboard_size() as usize]);
+    let mut from2 = Ob::intact(a[4], &data, bs);
+    let r: io::Result<()> = if a[6] == 0 {
+        with_ob!(&from, f => with_ob!(&mut to, o => sync::copy(f, o)))
+    } else {
+        with_ob_fsm!(&mut from2, f => with_ob_fsm!(&mut to, o => block_on(fsm::copy(f, o))))
+    };
+    // flip().flip() on the memory outboards
+    let pre = PreOrderMemOutboard { root: from.root(), tree: t, data: refenc::outboard(&data, bs, false) };
+    let post = PostOrderMemOutboard { root: from.root(), tree: t, data: refenc::outboard(&data, bs, true) };
+    let ff = pre.flip().flip() == pre && post.flip().flip() == post && pre.flip() == post && post.flip() == pre;
+    vec![io_rc(&r), digest(&to.data()) as u128, loads_digest(&to), loads_digest(&from), b(ff)]
+}
+
+/// grow: args [kind, seed, size1, size2, bs] (size1 <= size2) -> post-order outboards of the blob and its extension:
+///   [len1, dg1, len2, dg2, common_prefix_len]
+pub fn grow_case(a: &[u128]) -> Vec<u128> {
+    let d2 = gen_data(a[0] as u64, a[1] as u64, a[3] as usize);
+    let d1 = &d2[..a[2] as usize];
+    let bsz = BlockSize::from_chunk_log(a[4] as u8);
+    let o1 = PostOrderMemOutboard::create(d1, bsz);
+    let o2 = PostOrderMemOutboard::create(&d2, bsz);
+    let cp = o1.data.iter().zip(o2.data.iter()).take_while(|(x, y)| x == y).count();
+    vec![o1.data.len() as u128, digest(&o1.data) as u128, o2.data.len() as u128, digest(&o2.data) as u128, cp as u128]
+}
